@@ -220,12 +220,13 @@ CHECKS["C10"] = {
     "technique": "rapid-generated full client<->server rigs (all browser signatures, encryption methods, NumConn 0..8, traffic scripts, closes, virtual-clock latencies) with a passive tap on every connection; oracle = independent TLS record / ClientHello / ServerHello parser in /verif/kit/tlsref.go; the client half again with ck-client's main() in-process over loopback (rapid-generated configurations and traffic)",
     "level_text": "Every byte either side ever wrote on every client<->server connection of the generated sessions is parsed: the client's first flight must be exactly one handshake record (0x0301) with a structurally consistent ClientHello (all length fields add up, 32-byte session id, one server name equal to the configured one or a valid random host name, 32-byte X25519 share); the server must answer ServerHello (session id echoed, consistent) + ChangeCipherSpec + application data; everything after is application-data records (type 23, version 3.3) of length 1..16640 with no trailing partial record.",
     "level_note": "Direct mode only (as the property states). The traffic is whatever the C01 full-rig scripts produce, including stream and session closing notices and inactivity closures.",
-    "rule": "rapid draws a client configuration and 1..8 proxy connections with scripts; evaluations counts parsed connections; non-trivial = a rig in which >=1 connection carried data records in both directions after the handshake; distinct = distinct scenarios. Program: ck-client main() with NumConn {0,0,1,3}, any method, ServerName/AlternativeNames from fixed names and the keyword random, 2..6 proxied connections with 1..3 chunks; the client's byte stream of every connection is parsed; non-trivial = >=2 application-data records.",
+    "rule": "rapid draws a client configuration and 1..8 proxy connections with scripts; evaluations counts parsed connections; non-trivial = a rig in which >=1 connection carried data records in both directions after the handshake; distinct = distinct scenarios. Program: ck-client main() with NumConn {0,0,1,3}, any method, ServerName/AlternativeNames from fixed names and the keyword random, 2..6 proxied connections with 1..3 chunks; the client's byte stream of every connection is parsed; non-trivial = >=2 application-data records. Stall: session pair over 1..4 connections, connection 0 takes {1,3,100,3000,16000,20000,70000} bytes and then blocks for {1,10,29,31,45,100,400} virtual seconds before it drains again; 1..3 streams writing 8/64/200 KB; non-trivial = bytes went out on the stalled connection.",
     "assumptions": ["tlsref.go implements RFC 8446 framing correctly"],
     "jobs": [
         {"pkg": SERVER, "run": "^TestVerif_C10_Wire$", "checks": {"quick": 150, "thorough": 10000}, "shards": {"thorough": 16}, "timeout": {"quick": 600}},
         {"pkg": SERVER, "run": "^TestVerif_C10_Datagrams$", "checks": {"quick": 300, "thorough": 20000}, "shards": {"thorough": 8}, "timeout": {"quick": 600}},
         {"pkg": CKCLIENT, "run": "^TestVerif_C10_Program$", "realtime": True, "checks": {"quick": 12, "thorough": 300}, "shards": {"thorough": 4}, "timeout": {"quick": 600}},
+        {"pkg": MUX, "run": "^TestVerif_C10_Stall$", "checks": {"quick": 150, "thorough": 10000}, "shards": {"thorough": 8}, "timeout": {"quick": 600}},
     ],
 }
 
